@@ -69,6 +69,8 @@ type VAll struct {
 	V     VInner                 `json:"v"`
 	If    VIface                 `json:"if"`
 	Ifs   []VIface               `json:"ifs"`
+	Vs    []VInner               `json:"vs"`
+	Ps    []*VInner              `json:"ps"`
 	NoTag string
 }
 
@@ -152,6 +154,10 @@ func c10atoms() []c10atom {
 	add("embedded3", "gamma", `gamma:"g"`, func(v *VAll) { v.Gamma = "g" })
 	add("embedded3", "delta", `delta:"d"`, func(v *VAll) { v.Delta = "d" })
 	add("embedded2", "e2", `e2:5`, func(v *VAll) { v.E2 = 5 })
+	add("[]struct", "vs", `vs:[(vinner s:"a" n:1) (vinner s:"b")]`, func(v *VAll) { v.Vs = []VInner{{S: "a", N: 1}, {S: "b"}} })
+	add("[]struct", "vs", `vs:[(vinner s:"a" n:1) (vinner n:2) (vinner s:"c")]`, func(v *VAll) { v.Vs = []VInner{{S: "a", N: 1}, {N: 2}, {S: "c"}} })
+	add("[]*struct", "ps", `ps:[(vinner s:"a" n:1) (vinner s:"b")]`, func(v *VAll) { v.Ps = []*VInner{{S: "a", N: 1}, {S: "b"}} })
+	add("[]*struct", "ps", `ps:[(vinner n:4) (vinner s:"b") (vinner n:6)]`, func(v *VAll) { v.Ps = []*VInner{{N: 4}, {S: "b"}, {N: 6}} })
 	add("time", "t", `t:tm0`, func(v *VAll) { v.T = c10time })
 	add("*struct", "p", `p:(vinner s:"q" n:7)`, func(v *VAll) { v.P = &VInner{S: "q", N: 7} })
 	add("*struct", "p2", `p2:(vinner s:"q2" n:8)`, func(v *VAll) { v.P2 = &VInner{S: "q2", N: 8} })
@@ -455,12 +461,52 @@ func c10bad(c *engine.Ctx) {
 	}
 }
 
+// c10seq: conversions after the record has changed — the Go side must see the record's current values every time
+func c10seq(c *engine.Ctx, only string) {
+	seqs := []struct {
+		name   string
+		script []string
+		want   []string // substrings of the printed last result
+	}{
+		{"arg-after-togo-and-hset", []string{`(def in (vinner s:"a" n:1))`, `(togo in)`, `(hset in s: "changed")`, `(def a (vall str:"x"))`, `(_method a EchoInner: in)`}, []string{`s:"changed"`, `n:1`}},
+		{"arg-after-use-as-field-and-hset", []string{`(def in (vinner s:"a" n:1))`, `(def a (vall p:in))`, `(togo a)`, `(hset in n: 9)`, `(_method a EchoInner: in)`}, []string{`s:"a"`, `n:9`}},
+		{"arg-twice-with-hset-between", []string{`(def in (vinner s:"a" n:1))`, `(def a (vall str:"x"))`, `(_method a EchoInner: in)`, `(hset in s: "second")`, `(_method a EchoInner: in)`}, []string{`s:"second"`, `n:1`}},
+		{"arg-after-being-receiver-like-nesting", []string{`(def in (vinner s:"a" n:1))`, `(def a (vall if:in ifs:[in]))`, `(_method a EchoSelf:)`, `(hset in n: 5)`, `(_method a EchoInner: in)`}, []string{`n:5`}},
+		{"togo-twice-with-hset-between", []string{`(def in (vinner s:"a" n:1))`, `(togo in)`, `(hset in n: 7)`, `(str (togo in))`}, []string{`N:7`}},
+	}
+	for _, sq := range seqs {
+		w := "SEQ|" + sq.name
+		if !(only == "" && c.Mine() || only == w) {
+			continue
+		}
+		c.Begin(w)
+		c10register()
+		env := zy.New(true)
+		var last zy.Res
+		for _, t := range sq.script {
+			last = zy.Eval(env, t)
+		}
+		got := last.String()
+		if last.OK() {
+			got = last.Sexp.SexpString(nil)
+		}
+		for _, sub := range sq.want {
+			if !strings.Contains(got, sub) {
+				c.Violation("stale-conversion", "C10/stale-conversion/"+sq.name, w, fmt.Sprintf("after %q the Go side saw %s; the record's current values include %s", sq.script, clipS(got, 300), sub))
+				break
+			}
+		}
+		env.Close()
+		c.Outcome(w + "|" + clipS(got, 60))
+	}
+}
+
 func init() {
 	engine.Register(&engine.Check{
 		ID:    "C10",
 		Level: "exploration",
-		Rule: "harness-registered Go struct types with one field of every supported kind (string, int, int64, float64, bool, []string, []int, []byte, map[string]string|float64|interface, time.Time, embedded struct, *struct, struct value, interface holding a registered struct, slice of such interfaces, untagged field): " +
-			"for 2-4 values per kind, combinations, and 4 sharing patterns the Go value is fixed first and the record text derived from it; SexpToGoStructs and (togo r) must give reflect.DeepEqual values with one object per shared record; (_method a EchoSelf:) must return an equal record; 11 records with an undeclared field or a wrong-kind value must be reported as errors",
+		Rule: "harness-registered Go struct types with one field of every supported kind (string, int, int64, float64, bool, []string, []int, []byte, map[string]string|float64|interface, time.Time, embedded struct, *struct, struct value, interface holding a registered struct, slice of such interfaces, slices of struct values and of struct pointers, map of interfaces, three levels of embedding, untagged field): " +
+			"for 2-4 values per kind, combinations, and 4 sharing patterns the Go value is fixed first and the record text derived from it; SexpToGoStructs and (togo r) must give reflect.DeepEqual values with one object per shared record; (_method a EchoSelf:) must return an equal record; 11 records with an undeclared field or a wrong-kind value must be reported as errors; 5 sequences in which a record changes (hset) after it has already been converted once and is then passed to Go again",
 		Assumptions: []string{"types are registered by the harness through the public registry API, like the demo structs"},
 		Run: func(c *engine.Ctx) {
 			for _, k := range c10cases(c.Thorough()) {
@@ -469,9 +515,12 @@ func init() {
 				}
 			}
 			c10bad(c)
+			c10seq(c, "")
 		},
 		Replay: func(c *engine.Ctx, w string) {
-			if strings.HasPrefix(w, "BAD|") {
+			if strings.HasPrefix(w, "SEQ|") {
+				c10seq(c, w)
+			} else if strings.HasPrefix(w, "BAD|") {
 				c.NWorkers = 1
 				c10bad(c)
 			} else {
